@@ -359,13 +359,15 @@ Definition do_revert (s0 : state) : state * out :=
           (* Go: curBlock == currRangeStart-1 with curBlock = next-1, all uint64: equivalent to
              next == currRangeStart for every pair of uint64 values *)
           if nx =? w_from w then
-            (* running window is empty: delete ITS key, load the previous persisted window *)
+            (* running window is empty: load the previous persisted window and delete ITS persisted
+               copy (a later rollover persists it again). Before /repo commit 5440575 the key of the
+               empty running window was deleted instead. *)
             match lookup (aligned cur) (persisted s) with
             | None => (s, OErr)
             | Some lw =>
                 match w_clear lw cur with
                 | Some w2 =>
-                    (Build_state (removelast (chain s)) (mremove (w_from w) (persisted s))
+                    (Build_state (removelast (chain s)) (mremove (aligned cur) (persisted s))
                                  (snapshot s) (Ready w2 cur) (cache s), OOk)
                 | None => (set_running s (Ready lw cur), OErr)
                 end
@@ -480,8 +482,10 @@ Definition no_stale_persisted_b (s : state) : bool :=
 Definition snap_good_b (s : state) (w : window) (nx : N) : bool :=
   (w_from w mod W =? 0) && (w_from w <=? nx) && (nx <=? w_to w) && covers_b w (chain s) (w_from w) nx.
 
-(* what an ungraceful restart needs from the disk: the branch InitializeRunningEventFilter will take
-   must find trustworthy data *)
+(* what an ungraceful restart needs from the disk: if InitializeRunningEventFilter is going to use the
+   snapshot (as it is, or filled in place) the snapshot must describe the current chain. The rebuild
+   branch needs nothing: persisted windows at or above the head's window cannot exist (invariant, since
+   onReorg deletes the window it re-enters). *)
 Definition disk_ok_b (s : state) : bool :=
   match chain s with
   | [] => true
@@ -491,8 +495,8 @@ Definition disk_ok_b (s : state) : bool :=
       | Some (w, nx) =>
           if (nx =? latest + 1) || ((nx <=? latest) && (latest <=? w_to w))
           then snap_good_b s w nx
-          else no_stale_persisted_b s
-      | None => no_stale_persisted_b s
+          else true
+      | None => true
       end
   end.
 
@@ -507,7 +511,8 @@ Fixpoint guarded (s : state) (ops : list op) : bool :=
        end) && guarded (fst (step s o)) r
   end.
 
-(* first ungraceful restart on a bad disk: 1 = snapshot used but not good, 2 = stale persisted window *)
+(* kind of bad disk met by an ungraceful restart: 1 = snapshot used but not good, 2 = stale persisted
+   window on the rebuild branch (unreachable since 5440575; kept so that a regression is classified) *)
 Definition disk_bad_kind (s : state) : N :=
   match chain s with
   | [] => 0
